@@ -165,12 +165,27 @@ pub mod payload {
         Ok(n)
     }
 
-    /// Decode varint-prefixed data payload.
-    pub fn decode<R: io::Read + ?Sized>(reader: &mut R) -> Result<Vec<u8>, wire::Error> {
-        let size = VarInt::decode(reader)?;
-        let mut data = vec![0; *size as usize];
-        reader.read_exact(&mut data[..])?;
+    /// Maximum number of bytes allocated ahead of the payload bytes actually read.
+    pub const READ_AHEAD: usize = 4096;
 
+    /// Decode varint-prefixed data payload.
+    ///
+    /// Nb. The declared size is controlled by the remote peer, and may be as large
+    /// as `2^62 - 1`. The buffer is therefore grown as the payload is read, such that
+    /// we never allocate more than [`READ_AHEAD`] bytes beyond what was actually
+    /// received.
+    pub fn decode<R: io::Read + ?Sized>(reader: &mut R) -> Result<Vec<u8>, wire::Error> {
+        let size = *VarInt::decode(reader)? as usize;
+        let mut data = Vec::new();
+
+        while data.len() < size {
+            let start = data.len();
+            let n = (size - start).min(READ_AHEAD);
+
+            data.reserve_exact(n);
+            data.resize(start + n, 0);
+            reader.read_exact(&mut data[start..])?;
+        }
         Ok(data)
     }
 }
